@@ -50,7 +50,7 @@ INFO_FLAGGED = [0, 0, 0, 4, 8, 4 + 8, 1024, 2048, 2048 + 4]
 def translate():
     from translator import registry
 
-    return registry.generate("Interp", "Constants")
+    return registry.generate("Interp", "Constants", "KernelsInterp")
 
 
 # --------------------------------------------------------------------------------------------
@@ -611,6 +611,9 @@ def run(ctx, report, status):
         "distinct by (method, offset, map, mask)"
     )
     translator_cross_check(ctx, report, status)
+    # the kernels regenerated from the source (Generated/KernelsInterp.lean): real numba functions vs the translator's evaluator
+    from ..impl import interp_kernels_check
+    interp_kernels_check.kernel_cross_check(ctx, report, status)
     v = source_variant()
     report.count("model_variant_read_from_source:" + v)
     if v == "unknown":
